@@ -70,6 +70,14 @@ type Config struct {
 	// length of the trace at that moment, which lets a checker follow the
 	// order the implementation took.  nil: sorted key order.
 	MapOrder func(remaining []string, logLen int) int
+	// StraySignalIsError: a break / continue executed outside any loop of the
+	// current FUNCTION invocation does not act on a loop of the caller (a
+	// function boundary is not transparent: "break and continue act on the
+	// innermost enclosing loop only"): the signal travels to the boundary of
+	// the invocation and the call fails there with an error whose text is
+	// unspecified.  false: such a program is Undetermined (the default; at
+	// the top level it always is).
+	StraySignalIsError bool
 	// OnSignal, when set, is called with the Tag of every executed Break /
 	// Continue / Return / Throw / expression statement whose Tag is not 0 (lets a checker
 	// measure that the statement under test was reached).
@@ -172,7 +180,8 @@ const (
 // frame is one invocation (a function call or the top level).
 type frame struct {
 	defers []func() ctl
-	loops  int // loops of this invocation that currently enclose the statement being executed
+	loops  int  // loops of this invocation that currently enclose the statement being executed
+	fn     bool // a function invocation (not the top level)
 }
 
 type abort struct {
@@ -394,14 +403,14 @@ func (in *interp) exec(s Stmt, sc *Scope, fr *frame) ctl {
 
 	case Break:
 		in.signal(s.Tag)
-		if fr.loops == 0 {
+		if fr.loops == 0 && !(fr.fn && in.cfg.StraySignalIsError) {
 			in.undetermined("break outside a loop of the current invocation")
 		}
 		return ctlBreak
 
 	case Continue:
 		in.signal(s.Tag)
-		if fr.loops == 0 {
+		if fr.loops == 0 && !(fr.fn && in.cfg.StraySignalIsError) {
 			in.undetermined("continue outside a loop of the current invocation")
 		}
 		return ctlContinue
@@ -756,7 +765,7 @@ func (in *interp) invoke(f *FuncV, args []Value) (Value, ctl) {
 			sc.define(p, args[i])
 		}
 	}
-	fr := &frame{}
+	fr := &frame{fn: true}
 	c := in.execList(f.Lit.Body, sc, fr)
 	var res Value = UndefV{} // a body that ends without return: value not defined
 	var bodyErr *ErrV
@@ -766,7 +775,10 @@ func (in *interp) invoke(f *FuncV, args []Value) (Value, ctl) {
 	case ctlThrow:
 		bodyErr = in.err
 	case ctlBreak, ctlContinue:
-		in.undetermined("break/continue reached a function boundary")
+		if !in.cfg.StraySignalIsError {
+			in.undetermined("break/continue reached a function boundary")
+		}
+		bodyErr = &ErrV{Any: true} // the call fails; the caller's loops are not addressed
 	}
 	deferErr := in.runDefers(fr)
 	if bodyErr != nil {
